@@ -253,6 +253,15 @@ def run(prog: Program) -> Results:
             if isinstance(n, (ast.For, ast.comprehension)) and norm(n.iter) in ("EXPRESSION_TYPES",) and f.key != "register_expression":
                 res.add("R-C15-2", (f.key, "iterates a set", norm(n.iter)), f.loc(n.iter),
                         f"{f.key} iterates the set {norm(n.iter)}: the order depends on PYTHONHASHSEED")
+    from sa.rules import c04 as _shared_c04
+    _sub = _shared_c04.run(prog)
+    _st = _sub.rules.get("R-C04-4")
+    _r = res.rule("R-C15-3", "no memoised object is stored into a document: documents edited in one process (any thread, any order) never share a mutable node (shared with R-C04-4)", floor=5)
+    if _st:
+        _r.instances, _r.obligations, _r.discharged = _st.instances, _st.obligations, _st.discharged
+    for _f in _sub.findings:
+        if _f.rule == "R-C04-4":
+            res.add("R-C15-3", _f.key, _f.where, _f.message)
     res.tables.append(f"sa/rules/c15.py:STATE_WRITERS ({len(STATE_WRITERS)} confined objects, one reason each)")
     res.assumptions = ["interleavings themselves are not explored; confinement (thread-local, context variables, identity-validated "
                        "registry under the GIL) is the argument"]
